@@ -13,6 +13,7 @@ pub fn gens() -> Vec<Gen> {
     vec![
         Gen { name: "c09.signed", prop: "C09", tags: &["exp", "nbf", "leeway", "validation", "required", "src/verifier.rs"], cases: cases_signed, check },
         Gen { name: "c09.typ_header", prop: "C09", tags: &["typ", "header", "required_spec_claims", "vc"], cases: cases_typ, check },
+        Gen { name: "c09.aud_claim", prop: "C09", tags: &["aud", "audience", "required_spec_claims"], cases: cases_aud, check },
         Gen { name: "c09.lib_issued", prop: "C09", tags: &["issued", "hidden"], cases: cases_lib, check },
         // slow (one case sleeps ~70 s): keep LAST; it only starts when >= 80 s of budget are left
         Gen { name: "c09.revalidate", prop: "C09", tags: &["revalidate", "cache", "again", "second"], cases: cases_revalidate, check: check_revalidate },
@@ -166,6 +167,31 @@ fn cases_typ(_rng: &mut Rng, sink: &mut dyn FnMut(J) -> bool) {
     }
 }
 
+/// An `aud` claim (or other registered claims) in the issuer-signed JWT must not relax the
+/// temporal checks. Whether an in-window credential that names an audience is accepted at all is
+/// not asserted here (the JWT layer interprets aud), only the must-reject side.
+fn cases_aud(_rng: &mut Rng, sink: &mut dyn FnMut(J) -> bool) {
+    let mut n = 0usize;
+    for (format, kb, alg) in [("compact", false, "ES256"), ("json", false, "EdDSA"), ("json", true, "ES256"), ("compact", true, "HS256")] {
+        for extra in [json!({"aud": "https://wallet.example"}), json!({"aud": ""}), json!({"aud": "x", "sub": "s", "jti": "j"}), json!({"aud": ["a", "b"]}), json!({"sub": "s", "jti": "j", "iat": 1})] {
+            for (e, e_ok) in exp_specs() {
+                n += 1;
+                let accept = if e_ok { J::Null } else { json!(false) };
+                if !sink(json!({"mode": "signed", "extra": extra, "exp": e, "nbf": {"kind": "absent"}, "accept": accept, "format": format, "kb": kb, "alg": alg, "with_disclosures": n % 2 == 0})) {
+                    return;
+                }
+            }
+            for (nb, nb_ok) in nbf_specs().into_iter().step_by(2) {
+                n += 1;
+                let accept = if nb_ok { J::Null } else { json!(false) };
+                if !sink(json!({"mode": "signed", "extra": extra, "exp": {"kind": "value", "value": FAR_EXP}, "nbf": nb, "accept": accept, "format": format, "kb": kb, "alg": alg, "with_disclosures": n % 2 == 0})) {
+                    return;
+                }
+            }
+        }
+    }
+}
+
 fn cases_lib(_rng: &mut Rng, sink: &mut dyn FnMut(J) -> bool) {
     let mut n = 0usize;
     for strategy in ["NoSD", "TopLevel", "AllLevels"] {
@@ -265,6 +291,9 @@ pub fn check(case: &J) -> Verdict {
         if want_kb {
             payload["cnf"] = json!({"jwk": keys::holder_jwk_json("es256")});
         }
+        for (k, v) in case["extra"].as_object().cloned().unwrap_or_default() {
+            payload[k] = v;
+        }
         let (payload, ds) = build_crafted(&payload, &[json!(["c2FsdC1zYWx0LXNhbHQtMDE", "n0", "v0"]), json!(["c2FsdC1zYWx0LXNhbHQtMDI", "n1", {"k": 1}])]);
         let ds = if with_d { ds } else { vec![] };
         let jwt = match (case.get("typ"), splice_raw(&payload)) {
@@ -281,7 +310,7 @@ pub fn check(case: &J) -> Verdict {
     };
     let o = sut::verify(&text, alg, if want_kb { Some(&kb) } else { None }, format);
     let show = |v: Option<J>| v.map(|e| jstr(&e).replace("\"@@RAW:", "").replace("@@\"", "")).unwrap_or("absent".into());
-    let what = format!("exp = {}, nbf = {}{} (now = {})", show(exp), show(nbf), case.get("typ").map(|t| format!(", header typ = {t}")).unwrap_or_default(), now());
+    let what = format!("exp = {}, nbf = {}{} (now = {})", show(exp), show(nbf), case.get("typ").map(|t| format!(", header typ = {t}")).unwrap_or_default() + &case.get("extra").map(|t| format!(", further claims {t}")).unwrap_or_default(), now());
     if !asserted {
         return match o {
             Out::Panic(m) => fail(format!("PANIC: {m} ({what})"), "Ok or Err"),
